@@ -1326,12 +1326,14 @@ func (ev *Env) builtinSpec(name string, argEs []Expr) (T, bool) {
 		// the unsigned integer a ByteOrder decodes from these bytes (uninterpreted; the same function is used by
 		// PutUintN and UintN, so byte order itself is abstracted)
 		n := map[string]int{"u16": 2, "u32": 4, "u64": 8}[name]
-		if len(argEs) != n {
-			stale("%s takes %d byte arguments", name, n)
+		if len(argEs) != n+1 {
+			stale("%s takes a ByteOrder value and %d byte arguments", name, n)
 		}
 		vc.declUint(n)
+		vc.decl("itag", "(declare-fun itag (Int) Int)")
 		var as []string
-		for i := range argEs {
+		as = append(as, fmt.Sprintf("(itag %s)", arg(0).S))
+		for i := 1; i < len(argEs); i++ {
 			as = append(as, arg(i).S)
 		}
 		return T{fmt.Sprintf("(bo.u%d %s)", n*8, strings.Join(as, " ")), "Int", intT}, true
